@@ -407,6 +407,7 @@ class World:
         self._apply_knob_seams()
         cfg = self._build_config()
         osutil = make_osutils(self.fs)
+        self._count_stream_buffers(osutil)
         self.fs.invariants.append(self._dest_invariant)
         for spec in sc['transfers']:
             self._prepare_transfer(spec)
@@ -606,6 +607,69 @@ class World:
             ev['exact'] = intact
             ev['returned'] = sim.stamp()
         self._mass_evs = []
+
+    # ---- C11(a): part bodies of stream uploads that exist in memory ---------------
+    def _count_stream_buffers(self, osutil):
+        """Every in-memory part body is created by
+        open_file_chunk_reader_from_fileobj() right after its bytes were read
+        from the user's stream and ceases to exist some time after its
+        close(); created - closed therefore under-approximates the number of
+        buffers alive, and the statement bounds that number by
+        max_in_memory_upload_chunks + max_submission_concurrency."""
+        import io
+        world = self
+        orig = osutil.open_file_chunk_reader_from_fileobj
+
+        def wrapped(fileobj, chunk_size, full_file_size, callbacks,
+                    close_callbacks=None):
+            rfc = orig(fileobj=fileobj, chunk_size=chunk_size,
+                       full_file_size=full_file_size, callbacks=callbacks,
+                       close_callbacks=close_callbacks)
+            inner = fileobj
+            for _ in range(6):
+                nxt = getattr(inner, '_fileobj', None)
+                if nxt is None:
+                    break
+                inner = nxt
+            if not isinstance(inner, io.BytesIO):
+                return rfc
+            size = len(inner.getbuffer())
+            cfg = world.config
+            world.live_chunk_readers += 1
+            if world.live_chunk_readers > world.max_live_chunk_readers:
+                world.max_live_chunk_readers = world.live_chunk_readers
+            if not world.dirty and cfg is not None:
+                bound = cfg['max_in_memory_upload_chunks'] + cfg['max_submission_concurrency']
+                if world.live_chunk_readers > bound:
+                    world.violation(
+                        'C11', 'upload-buffers',
+                        '%d part bodies of stream uploads exist in memory > '
+                        'max_in_memory_upload_chunks + max_submission_concurrency = %d'
+                        % (world.live_chunk_readers, bound))
+                adj = world.knobs.get('adjuster') or {}
+                neutral = adj.get('max_parts', 10000) >= 10000 and adj.get('min_size', 1) <= 1
+                # a stream that returns fewer bytes than asked for although more
+                # follow makes the library misjudge the size class; that input is
+                # outside the statement ("any object/stream size")
+                if any(t.get('short_src') for t in world._all_transfer_specs()):
+                    neutral = False
+                lim = max(cfg['multipart_chunksize'], cfg['multipart_threshold'])
+                if neutral and size > lim:
+                    world.violation(
+                        'C11', 'upload-buffer-size',
+                        'a %d byte part body is held in memory > max(multipart_chunksize, '
+                        'multipart_threshold) = %d' % (size, lim))
+            closed = [False]
+            real_close = rfc.close
+
+            def close():
+                if not closed[0]:
+                    closed[0] = True
+                    world.live_chunk_readers -= 1
+                return real_close()
+            rfc.close = close
+            return rfc
+        osutil.open_file_chunk_reader_from_fileobj = wrapped
 
     # ---- C06 namespace invariant, evaluated after every fs mutation ---------------
     def _dest_invariant(self, fs, op, path):
